@@ -105,10 +105,12 @@ def proof_leg(prop, tier):
     """returns dict(ok, obligations, discharged, axioms, problems, checker_cmd)"""
     obl = load_json("obligations.json").get(prop, {})
     thms = obl.get("theorems", [])
-    mod = f"Ohsl.Props.{prop}"
+    enabled = open(os.path.join(LEAN, "props_enabled.txt")).read().split()
+    pmods = [f"Ohsl.Props.{m}" for m in sorted(enabled) if m.startswith(prop)]
+    mod = " ".join(pmods)
     res = dict(ok=True, obligations=len(thms), discharged=0, axioms={}, problems=[],
                checker_cmd=f"cd lean && lake build {mod} && lake env lean .lake/audit/{prop}.lean  (#print axioms of every obligation)")
-    r = build_lean([mod, "ohsl-model"])
+    r = build_lean(pmods + ["ohsl-model"])
     if r.returncode != 0:
         res["ok"] = False
         res["problems"].append("lake build failed: " + r.stdout[-1500:])
@@ -121,7 +123,7 @@ def proof_leg(prop, tier):
     os.makedirs(adir, exist_ok=True)
     afile = os.path.join(adir, f"{prop}.lean")
     with open(afile, "w") as f:
-        f.write(f"import {mod}\n")
+        for m_ in pmods: f.write(f"import {m_}\n")
         for t in thms:
             f.write(f"#print axioms {t['name']}\n")
     r = sh(["lake", "env", "lean", afile], cwd=LEAN, timeout=1800)
@@ -144,7 +146,7 @@ def proof_leg(prop, tier):
             res["ok"] = False
             res["problems"].append(f"theorem {nm} depends on {sorted(ax - ALLOWED_AXIOMS)}")
     if tier == "thorough":
-        mods = [mod] + obl.get("modules", [])
+        mods = pmods + obl.get("modules", [])
         for m_ in mods:
             rc = sh(["lake", "env", "leanchecker", m_], cwd=LEAN, timeout=3600)
             if rc.returncode != 0:
